@@ -156,6 +156,18 @@ def generate():
     out.append("(* the image is handed over with one write_all(&self.data), after the loop over the links *)")
     out.append("Definition gen_link_output_is_write_all : bool := %s." % ("true" if wa else "false"))
     status["link:output"] = wa
+    # the order of the function: the reference check over every touched symbol comes first and nothing returns before it;
+    # the loop over the links follows directly; the only `return`s are the diagnostics of the two loops
+    sig = re.search(r"\)\s*->\s*Result<[^{]*\{", body)
+    pro = body[sig.end():] if sig else ""
+    refs_first = re.match(r"\s*for \(strref, loc\) in self\.symtab\.references\(\) \{", pro) is not None
+    if refs_first:
+        rb, rafter = block_after(pro, pro.index("{") + 1)
+        refs_first = re.match(r"\s*for link in &self\.links \{", pro[rafter:]) is not None \
+            and len(re.findall(r"return Err\(", rb)) == 2 and "return Ok" not in rb and "break" not in rb and "continue" not in rb
+    out.append("(* the undefined-symbol check over symtab.references() is the first statement, the loop over the links the second *)")
+    out.append("Definition gen_link_references_checked_first : bool := %s." % ("true" if refs_first else "false"))
+    status["link:references-first"] = refs_first
     text = "\n".join(out) + "\n"
     os.makedirs(os.path.join(COQ, "Gen"), exist_ok=True)
     p = os.path.join(COQ, "Gen", "LinkArms.v")
